@@ -1,11 +1,20 @@
 (* C04, third clause: instantiation of TokIR/Consumed.v on the REGENERATED html and xml tokenizer tables. *)
 From Coq Require Import List NArith Bool.
 From HV Require Import TokIR.IR TokIR.Interp TokIR.Checks TokIR.NoPanic TokIR.Consumed.
-From HV Require Import Gen.GenHtmlTok Gen.GenXmlTok Inst.InstNoPanic.
+From HV Require Import TokIR.LineInv Gen.GenHtmlTok Gen.GenXmlTok Inst.InstLine Inst.InstTermX Inst.InstNoPanic.
 Import ListNotations.
 
 Lemma xml_noeof_all : forall s, noeofb (t_step xml_table s) = true.
 Proof. intros s. destruct s; try reflexivity; destruct k; try reflexivity; destruct k; reflexivity. Qed.
+
+Lemma newest_is_eof_means {S : Type} (m : mach S (list N)) :
+  newest_is_eof m <-> exists l k o, mout m = (TEof, l, k) :: o.
+Proof.
+  unfold newest_is_eof. destruct (mout m) as [|[[t l] k] o].
+  - split; [intros []|intros (l & k & o & H); discriminate H].
+  - destruct t; try (split; [intros []|intros (l' & k' & o' & H); discriminate H]).
+    split; [intros _; exists l, k, o; reflexivity|intros _; exact I].
+Qed.
 
 Section Both.
 Variable simd : list N * list N * list N.
@@ -29,4 +38,24 @@ Theorem xml_feed_loop_done_queue_empty fuel inj n m log :
   let r := feed_loop [] fq_next fq_peek (@app N) (fun q => q) fq_run1 xml_flavour true xml_table simd ent c1 sk n fuel inj m log in
   hd (SPanic 0) (snd r) = SSuspend -> mq (fst r) = [].
 Proof. exact (feed_loop_susp_q xml_flavour xml_table simd ent c1 sk xml_noeof_all fuel inj n m log). Qed.
+(* Tokenizer::end answering normally has delivered the EOF token, and nothing after it *)
+Theorem html_end_delivers_eof_last fuel m :
+  let r := tok_end [] fq_next fq_peek (@app N) (fun q => q) fq_run1 html_flavour true html_table simd ent c1 sk fuel m in
+  snd r = SSuspend -> newest_is_eof (fst r).
+Proof. exact (tok_end_last html_flavour html_table simd ent c1 sk html_eof_ok_all fuel m). Qed.
+Theorem xml_end_delivers_eof_last fuel m :
+  let r := tok_end [] fq_next fq_peek (@app N) (fun q => q) fq_run1 xml_flavour true xml_table simd ent c1 sk fuel m in
+  snd r = SSuspend -> newest_is_eof (fst r).
+Proof. exact (tok_end_last xml_flavour xml_table simd ent c1 sk xml_eof_ok_all fuel m). Qed.
 End Both.
+
+(* non-vacuity (a test, by computation): "x&am" in the Data state - the reference is still pending when the input runs
+   out: feed answers Done, the queue is empty, the two characters read for the reference sit in its own buffer *)
+Example consumed_ex :
+  let r := feed [] fq_next fq_peek (@app N) (fun q => q) fq_run1 html_flavour true html_table
+                (simd_first_guard, simd_tail_stop, simd_tail_newline) (fun _ => None) (fun _ => None)
+                {| sk_resp := []; sk_foreign := false |} 100
+                (mkmach (init_cfg HData None false) [120; 38; 97; 109]%N [] 0%N) in
+  snd r = SSuspend /\ mq (fst r) = [] /\
+  match cref (mc (fst r)) with Some cr => cr_buf cr = [97; 109]%N | None => False end.
+Proof. vm_compute. repeat split. Qed.
